@@ -17,10 +17,14 @@ H3a == << <<1, 1>>, <<4, 1>>, <<1, 3>> >>
 H4a == << <<4, 3>>, <<8, 3>>, <<6, 7>> >>
 H4b == << <<2, 5>>, <<3, 5>>, <<3, 6>>, <<2, 6>> >>
 H5a == << <<1, 1>>, <<3, 2>>, <<2, 2>> >>
+(* a U-shaped hole with a second hole in its notch: the bounding box of one hole lies inside the bounding box of the other *)
+S6 == << <<0, 0>>, <<12, 0>>, <<12, 12>>, <<0, 12>> >>
+HU == << <<2, 2>>, <<10, 2>>, <<10, 9>>, <<8, 9>>, <<8, 4>>, <<4, 4>>, <<4, 9>>, <<2, 9>> >>
+HN == << <<5, 6>>, <<7, 6>>, <<7, 8>>, <<5, 8>> >>
 Shift(r, dx, dy) == [i \in 1..Len(r) |-> <<r[i][1] + dx, r[i][2] + dy>>]
 ShiftP(pg, dx, dy) == [i \in 1..Len(pg) |-> Shift(pg[i], dx, dy)]
 BasePolys == { <<S1>>, <<S1, H1a>>, <<S1, H1a, H1b>>, <<S2>>, <<S2, H2a>>, <<S2, H2a, H2b>>, <<S3>>, <<S3, H3a>>,
-               <<S4>>, <<S4, H4a>>, <<S4, H4a, H4b>>, <<S5>>, <<S5, H5a>> }
+               <<S4>>, <<S4, H4a>>, <<S4, H4a, H4b>>, <<S5>>, <<S5, H5a>>, <<S6, HU, HN>>, <<S6, HN, HU>> }
 BaseShapes == {<<p>> : p \in BasePolys}
               \cup {<<p, ShiftP(q, 14, 1)>> : p \in {<<S1, H1a>>, <<S3>>, <<S5, H5a>>}, q \in {<<S1>>, <<S2, H2a>>, <<S4, H4a>>}}
 ASSUME \A sh \in BaseShapes : ValidShape(sh)
